@@ -74,6 +74,10 @@ func DoubleQuotesToBackTick(str string) (string, error) {
 							continue
 						}
 					}
+					// the identifier is delimited by backticks now: one of its own is doubled
+					if r == '`' {
+						buffer.WriteByte('`')
+					}
 					buffer.WriteByte(byte(r))
 				}
 				i--
